@@ -30,7 +30,7 @@ fn main() {
                         "one OS thread, unhooked crate; blocking calls are issued only when the model says they complete at once; recv_timeout(0) on an empty send-disconnected channel may return Timeout or SendClosed".into(),
                     ],
                     exe_args: vec![],
-                    engine_name: "seq",
+                    engine_name: if cfg!(feature = "stdmutex") { "seq[std-mutex]" } else { "seq" },
                 },
             );
             let mut code = code;
